@@ -52,6 +52,12 @@ where
     }
     world.reconcile_dir(CORRUPTED);
     *ctx.active_known.borrow_mut() = Some(storage.has_active_blob().await);
+    ctx.ignored.borrow_mut().clear();
+    if si > 0 && matches!(plan.sessions[si - 1].end, SessionEnd::Killed | SessionEnd::PowerLoss(_)) && ctx.crashed.get() {
+        crate::crash::after_recovery::<K>(&ctx, &storage, si).await;
+    } else {
+        observe_ignored::<K>(&ctx, &storage, sess.ignore_corrupted.unwrap_or(plan.store.ignore_corrupted)).await;
+    }
     crate::oracle::after_init(&ctx, &storage, si).await;
 
     let sequential = sess.clients.len() == 1;
@@ -214,6 +220,24 @@ where
             maintenance_seen = false;
             continue;
         }
+        if let OpKind::Damage(d) = &op.kind {
+            crate::faults::apply_at_rest(ctx, std::slice::from_ref(d));
+            *ctx.last_step_note.borrow_mut() = format!("after op uid={} {:?}", op.uid, op.kind);
+            let storage = st.as_ref().unwrap();
+            if plan.check_each_step {
+                let phase = base_phase(&plan, si).unwrap_or("step");
+                check_all_queries::<K>(ctx, storage, phase, op.uid).await;
+            }
+            continue;
+        }
+        if let OpKind::OverflowProbe { max_writes, gap_ms } = &op.kind {
+            overflow_probe::<K>(ctx, st.as_ref().unwrap(), op.uid, *max_writes, *gap_ms).await;
+            if plan.check_each_step {
+                let phase = base_phase(&plan, si).unwrap_or("step");
+                check_all_queries::<K>(ctx, st.as_ref().unwrap(), phase, op.uid).await;
+            }
+            continue;
+        }
         let storage = st.as_mut().unwrap();
         let maint = is_maintenance(&op.kind);
         if let OpKind::Offload { .. } = op.kind {
@@ -228,7 +252,7 @@ where
             return Some(SessionOutcome::Killed);
         }
         if plan.check_each_step && !matches!(op.kind, OpKind::Read { .. } | OpKind::Contains { .. } | OpKind::ReadAll { .. } | OpKind::ReadAllDel { .. } | OpKind::ReadWith { .. } | OpKind::CheckFilters { .. }) {
-            let phase = if maintenance_seen { "maintenance" } else { "step" };
+            let phase = base_phase(&plan, si).unwrap_or(if maintenance_seen { "maintenance" } else { "step" });
             check_all_queries::<K>(ctx, storage, phase, op.uid).await;
             // accounting is compared at quiescent points only (a blob being created by the
             // background worker exists on disk before it is attached)
@@ -241,11 +265,95 @@ where
                 }
             }
         }
-        if ctx.violations.borrow().len() > 10 {
+        if ctx.violations.borrow().len() > 10 || ctx.aborted.get() {
             break;
         }
     }
     None
+}
+
+/// With `ignore_corrupted` a blob that fails to load stays in the work dir without being part of
+/// the storage; which blobs are attached is observed, never predicted.
+pub async fn observe_ignored<K>(ctx: &Rc<RunCtx>, storage: &Storage<K>, ignore_on: bool)
+where
+    for<'a> K: Key<'a> + AsRef<K> + 'static,
+{
+    ctx.ignored.borrow_mut().clear();
+    if !ignore_on {
+        return;
+    }
+    let observed: BTreeSet<usize> = storage.records_count_detailed().await.iter().map(|x| x.0).collect();
+    let in_dir = ctx.attached_ignoring_ignored();
+    let ignored: BTreeSet<usize> = in_dir.difference(&observed).copied().collect();
+    // only blobs that were rejected once before (crash victims) may stay ignored
+    let victims = ctx.crash_victims.borrow().clone();
+    for b in ignored.iter() {
+        if !victims.contains(b) {
+            ctx.violate(&["C06", "C03"], "intact-blob-rejected", "a blob with no in-flight, torn or un-synced bytes at any crash was left out of the storage", format!("blob {} victims={:?}", b, victims));
+        }
+    }
+    *ctx.ignored.borrow_mut() = ignored;
+}
+
+pub async fn observed_active<K>(st: &Storage<K>) -> Option<usize>
+where
+    for<'a> K: Key<'a> + AsRef<K> + 'static,
+{
+    if st.has_active_blob().await {
+        st.records_count_detailed().await.last().map(|x| x.0)
+    } else {
+        None
+    }
+}
+
+/// Liveness probe: keep writing until the active blob has been switched.
+pub async fn overflow_probe<K>(ctx: &Rc<RunCtx>, storage: &Storage<K>, uid: u32, max_writes: u32, gap_ms: u64)
+where
+    for<'a> K: Key<'a> + AsRef<K> + 'static,
+{
+    use bytes::Bytes;
+    let plan = ctx.plan.clone();
+    let world = ctx.world.clone();
+    crate::oracle::settle(ctx).await;
+    let before = observed_active(storage).await;
+    let files_before = ctx.attached_ignoring_ignored();
+    let t0 = world.sim_ms();
+    let mut rotated = false;
+    let mut writes = 0;
+    for i in 0..max_writes {
+        let tag = Some(Tag { client: 1, uid: uid.wrapping_mul(1000).wrapping_add(i) });
+        let keyk: K = K::from(key_bytes((i % plan.n_keys.max(1) as u32) as u8, ctx.key_len));
+        let value = value_bytes(uid.wrapping_mul(1000).wrapping_add(i), 24);
+        let fault_seq_before = world.inner.borrow().last_fault_seq;
+        let r = tagged(&world, tag, storage.write(&keyk, Bytes::from(value), pearl::BlobRecordTimestamp::new(1_000_000 + i as u64))).await;
+        writes += 1;
+        if let Err(e) = r {
+            let fault_during = world.inner.borrow().last_fault_seq != fault_seq_before;
+            if !fault_during && !world.is_dead() {
+                let props: Vec<&str> = if plan.faults.is_empty() { vec!["C13"] } else { vec!["C11", "C13"] };
+                ctx.violate(&props, "probe-write-failed", format!("write returned Err({}) during the rotation probe although no fault fired during the call", err_kind(&e)), format!("probe uid={} write {}", uid, i));
+                return;
+            }
+        }
+        tokio::time::sleep(std::time::Duration::from_millis(gap_ms)).await;
+        let now = observed_active(storage).await;
+        let files_now = ctx.attached_ignoring_ignored();
+        if now != before && now.is_some() && files_now.len() > files_before.len() {
+            rotated = true;
+            break;
+        }
+        if world.kill_flag.get() {
+            return;
+        }
+    }
+    world.probe(if rotated { "probe_rotated" } else { "probe_not_rotated" });
+    if !rotated {
+        let limit = plan.store.max_data_in_blob;
+        if (writes as u64) > limit + 3 {
+            let props: Vec<&str> = if plan.faults.is_empty() { vec!["C13"] } else { vec!["C11", "C13"] };
+            ctx.violate(&props, "rotation-stalled", "the active blob was not switched although its record limit was exceeded", format!("probe uid={}: {} writes over {} simulated ms, max_data_in_blob={}, active blob before {:?}", uid, writes, world.sim_ms() - t0, limit, before));
+        }
+    }
 }
 
 /// Clean close, damage to index files at rest, reopen in the same runtime, compare with the model.
@@ -273,17 +381,64 @@ where
     let init_tag = Some(Tag { client: 0, uid });
     let r = if lazy { tagged(&world, init_tag, s2.init_lazy()).await } else { tagged(&world, init_tag, s2.init()).await };
     if let Err(e) = r {
-        ctx.violate(&["C03"], "reopen-failed", format!("init after clean close returned Err({})", err_kind(&e)), format!("damage={:?}: {:#}", damage, e));
-        return Err(SessionOutcome::InitFailed(err_kind(&e)));
+        let props: Vec<&str> = match base_phase(&plan, si) {
+            Some("fault") => vec!["C11"],
+            Some("cancel") => vec!["C14"],
+            Some("crash") => vec!["C06"],
+            Some("bitflip") => vec!["C05"],
+            _ => vec!["C03"],
+        };
+        // a flipped blob header (version field) legitimately makes the blob unreadable: C05 only
+        // speaks about data bytes
+        let header_flip = damage.iter().any(|d| matches!(d, AtRest::BitFlip { class: ByteClass::BlobHeader, .. })) || ctx.damaged.borrow().iter().any(|(_, _, c)| *c == ByteClass::BlobHeader);
+        if !(base_phase(&plan, si) == Some("bitflip") && header_flip) {
+            ctx.violate(&props, "reopen-failed", format!("init after clean close returned Err({})", err_kind(&e)), format!("damage={:?}: {:#}", damage, e));
+        }
+        ctx.aborted.set(true);
+        return Err(SessionOutcome::Dropped);
     }
+    let quarantined_before: BTreeSet<usize> = world.inner.borrow().shadows.iter().filter(|(_, s)| s.quarantined).filter_map(|(n, _)| if let FileKind::Blob(id) = classify(n) { Some(id) } else { None }).collect();
     world.reconcile_dir(CORRUPTED);
+    observe_ignored::<K>(ctx, &s2, sess2.ignore_corrupted.unwrap_or(plan.store.ignore_corrupted)).await;
+    // after a restart every complete record on disk is indexed: nothing is optional any more
+    ctx.optional_records.borrow_mut().clear();
+    ctx.cancelled.borrow_mut().clear();
+    {
+        let newly: Vec<usize> = world.inner.borrow().shadows.iter().filter(|(_, s)| s.quarantined).filter_map(|(n, _)| if let FileKind::Blob(id) = classify(n) { Some(id) } else { None }).filter(|b| !quarantined_before.contains(b)).collect();
+        for b in newly {
+            world.probe("blob_quarantined_at_restart");
+            let (holes, torn) = {
+                let w = world.inner.borrow();
+                let name = format!("{}.{}.blob", PREFIX, b);
+                (w.shadows.get(&name).map(|s| s.has_holes).unwrap_or(false), w.phys.get(&b).map(|v| v.iter().any(|r| !r.complete)).unwrap_or(false))
+            };
+            let damaged = ctx.damaged.borrow().iter().any(|(db, _, _)| *db == b);
+            match base_phase(&plan, si) {
+                Some("cancel") => ctx.violate(&["C14"], "blob-rejected-after-cancel", "after cancelled operations a blob file no longer parses and was quarantined at the next start", format!("blob {} holes={} torn={}", b, holes, torn)),
+                Some("fault") => {
+                    if !holes && !torn {
+                        ctx.violate(&["C11"], "intact-blob-rejected", "a blob without any failed or partial write was quarantined at the next start", format!("blob {}", b));
+                    }
+                }
+                Some("bitflip") => {
+                    if !damaged {
+                        ctx.violate(&["C05"], "intact-blob-rejected", "a blob whose bytes were not altered was quarantined at the next start", format!("blob {}", b));
+                    }
+                }
+                Some("crash") => {}
+                _ => ctx.violate(&["C03", "C07"], "blob-rejected-at-clean-restart", "a blob was quarantined by a restart after a clean close", format!("blob {} damage={:?}", b, damage)),
+            }
+        }
+    }
     *ctx.active_known.borrow_mut() = Some(s2.has_active_blob().await);
     *ctx.last_step_note.borrow_mut() = format!("after Restart(lazy={}, damage={:?}) uid={}", lazy, damage, uid);
     crate::oracle::after_init(ctx, &s2, si).await;
-    crate::oracle::compare_counters_after_restart(ctx, &counters_before, &s2, damage).await;
+    if base_phase(&plan, si).is_none() {
+        crate::oracle::compare_counters_after_restart(ctx, &counters_before, &s2, damage).await;
+    }
     if plan.check_each_step {
         let nviol = ctx.violations.borrow().iter().filter(|v| v.property.contains("C03")).count();
-        check_all_queries::<K>(ctx, &s2, "restart", uid).await;
+        check_all_queries::<K>(ctx, &s2, base_phase(&plan, si).unwrap_or("restart"), uid).await;
         if accounting && crate::oracle::settle(ctx).await {
             crate::oracle::check_accounting(ctx, &s2, "restart").await;
         }
@@ -299,9 +454,24 @@ where
 
 fn restart_phase(plan: &Plan, si: usize) -> &'static str {
     match plan.sessions[si - 1].end {
-        SessionEnd::Close => "restart",
-        SessionEnd::Drop => "restart",
+        SessionEnd::Close | SessionEnd::Drop => base_phase(plan, si).unwrap_or("restart"),
         _ => "crash",
+    }
+}
+
+/// Runs of the fault profiles attribute every later mismatch to the property of that profile.
+pub fn base_phase(plan: &Plan, si: usize) -> Option<&'static str> {
+    let b = plan.profile.split('+').next().unwrap_or("");
+    if b.starts_with("crash") {
+        if si > 0 { Some("crash") } else { None }
+    } else if b.starts_with("iofault") {
+        Some("fault")
+    } else if b.starts_with("cancel") {
+        Some("cancel")
+    } else if b.starts_with("bitflip") {
+        Some("bitflip")
+    } else {
+        None
     }
 }
 
@@ -316,7 +486,8 @@ where
     let tag = Some(Tag { client, uid: op.uid });
     let fault_free = plan.faults.is_empty();
     let stepwise = plan.check_each_step && plan.sessions[si].clients.len() == 1;
-    let strict = stepwise && fault_free;
+    let fault_seq_before = world.inner.borrow().last_fault_seq;
+    let mut strict = stepwise && fault_free;
     let lens = ctx.phys_lens();
     let attached = ctx.attached();
     *ctx.last_step_note.borrow_mut() = format!("after op uid={} {:?}", op.uid, op.kind);
@@ -394,6 +565,41 @@ where
         kind => tagged(&world, tag, crate::ops::op_future::<K>(storage, ctx.key_len, op.uid, kind)).await,
     };
     let ret = world.stamp();
+    // an error is only excused by a fault that fired while this operation was running
+    let fault_during_op = world.inner.borrow().last_fault_seq != fault_seq_before;
+    if !fault_free && stepwise && !fault_during_op && !world.is_dead() {
+        strict = true;
+    }
+    if fault_during_op {
+        world.probe("fault_fired_inside_operation");
+    }
+    let fail_props: Vec<&str> = match base_phase(&plan, si) {
+        Some("fault") => vec!["C11"],
+        Some("cancel") => vec!["C14"],
+        Some("crash") => vec!["C06"],
+        Some("bitflip") => vec!["C05"],
+        _ => vec![],
+    };
+    // records left behind by an operation that did not succeed may or may not be visible
+    if matches!(result, OpResult::Err(_) | OpResult::Cancelled { .. }) {
+        if let OpResult::Cancelled { .. } = result {
+            // the detached blocking closures of the dropped future still run: in half of the cases
+            // let them finish first, otherwise the next operation races with them
+            if crate::rng::mix_all(&[plan.sched.seed, 31, op.uid as u64]) % 2 == 0 {
+                crate::oracle::settle(ctx).await;
+            } else {
+                world.probe("next_op_races_detached_job");
+            }
+        }
+        for r in ctx.new_records_since(&lens) {
+            if r.complete {
+                ctx.optional_records.borrow_mut().insert((r.blob, r.offset));
+                world.probe("optional_record_from_failed_or_cancelled_op");
+            } else if matches!(result, OpResult::Cancelled { .. }) && r.bytes_written > 0 {
+                ctx.violate(&["C14"], "partial-record-after-cancel", "a cancelled operation left a partially written record in a blob", format!("uid={} blob {} offset {} written {} of {}", op.uid, r.blob, r.offset, r.bytes_written, r.total_len));
+            }
+        }
+    }
 
     // ---- contract checks
     match (&op.kind, &result) {
@@ -402,7 +608,7 @@ where
             if stepwise {
                 let kb = key_bytes(*key, ctx.key_len);
                 let value = value_bytes(op.uid, *len as usize);
-                let new = ctx.new_records_since(&lens);
+                let new: Vec<PhysRec> = ctx.new_records_since(&lens).into_iter().filter(|r| r.complete).collect();
                 let exp_meta = meta.map(meta_map).unwrap_or_default();
                 if suppressed {
                     world.probe("dup_suppressed");
@@ -411,7 +617,10 @@ where
                     }
                 } else if new.len() != 1 {
                     let cause = if new.is_empty() { "acknowledged write left no record in any blob".to_string() } else { format!("acknowledged write produced {} records", new.len()) };
-                    let props: Vec<&str> = if plan.store.allow_duplicates { vec!["C01", "C02", "C08"] } else { vec!["C02", "C01"] };
+                    let mut props: Vec<&str> = if plan.store.allow_duplicates { vec!["C01", "C02", "C08"] } else { vec!["C02", "C01"] };
+                    if !fail_props.is_empty() {
+                        props = fail_props.clone();
+                    }
                     ctx.violate(&props, "ack-record-mismatch", cause, format!("uid={} op={:?}", op.uid, op.kind));
                 } else {
                     let r = &new[0];
@@ -421,7 +630,13 @@ where
                     } else if r.data != value || !r.data_ok() || !r.header_crc_ok {
                         ctx.violate(&["C05"], "stored-bytes-mismatch", "stored record bytes or checksums differ from the written value", format!("uid={} len={}", op.uid, len));
                     } else if r.blob_offset_field != r.offset {
-                        ctx.violate(&["C05", "C08"], "embedded-offset-mismatch", "embedded blob_offset differs from the physical offset", format!("uid={} field={} physical={}", op.uid, r.blob_offset_field, r.offset));
+                        let append_mode = world.inner.borrow().shadows.get(&format!("{}.{}.blob", PREFIX, r.blob)).map(|s| s.append_mode).unwrap_or(false);
+                        if !fail_props.is_empty() && append_mode {
+                            ctx.violate(&fail_props, "record-misplaced", "after a failed write on a reopened (append-mode) blob an acknowledged record landed below its reserved offset: its index entry and embedded blob_offset point past the record", format!("uid={} embedded offset {} physical offset {}", op.uid, r.blob_offset_field, r.offset));
+                        } else {
+                            ctx.violate(&["C05", "C08"], "embedded-offset-mismatch", "embedded blob_offset differs from the physical offset", format!("uid={} field={} physical={}", op.uid, r.blob_offset_field, r.offset));
+                        }
+                        ctx.aborted.set(true);
                     }
                 }
             }
@@ -429,8 +644,13 @@ where
         (OpKind::Write { .. }, OpResult::Err(e)) => {
             ctx.indeterminate.borrow_mut().insert(op.uid);
             if strict {
-                let props: Vec<&str> = if maintenance_seen { vec!["C04"] } else { vec!["C01", "C04"] };
-                ctx.violate(&props, "write-failed", format!("write returned Err({}) in a fault-free sequential run", e), format!("uid={} maintenance_seen={}", op.uid, maintenance_seen));
+                let mut props: Vec<&str> = if maintenance_seen { vec!["C04"] } else { vec!["C01", "C04"] };
+                if !fail_props.is_empty() {
+                    props = fail_props.clone();
+                }
+                let why = if fault_free { "in a fault-free sequential run" } else { "although no fault fired during the call (earlier faults have cleared)" };
+                ctx.violate(&props, "write-failed", format!("write returned Err({}) {}", e, why), format!("uid={} maintenance_seen={}", op.uid, maintenance_seen));
+                ctx.aborted.set(true);
             }
         }
         (OpKind::Delete { key, ts, meta, only_if_presented }, OpResult::OkCount(n)) => {
@@ -439,7 +659,7 @@ where
             }
             if stepwise {
                 let kb = key_bytes(*key, ctx.key_len);
-                let new = ctx.new_records_since(&lens);
+                let new: Vec<PhysRec> = ctx.new_records_since(&lens).into_iter().filter(|r| r.complete).collect();
                 let exp_meta = meta.map(meta_map).unwrap_or_default();
                 let marked: Vec<usize> = new.iter().map(|r| r.blob).collect();
                 let marked_set: BTreeSet<usize> = marked.iter().copied().collect();
@@ -476,6 +696,8 @@ where
                 }
                 if bad {
                     ctx.violate(&["C02"], "delete-marker-mismatch", "delete stored something that is not a matching deletion marker", format!("uid={} new={:?}", op.uid, new.iter().map(|r| (r.blob, r.deleted, r.ts)).collect::<Vec<_>>()));
+                } else if fault_during_op {
+                    // errors while marking closed blobs are logged and skipped by design
                 } else if marked.len() != marked_set.len() || marked_set != expected {
                     let cause = if marked_set.len() < expected.len() { "delete did not mark every blob in which the key is live" } else { "delete marked a blob in which the key is not live" };
                     ctx.violate(&["C02"], "delete-marker-placement", cause, format!("uid={} only_if_presented={} live_blobs={:?} expected={:?} marked={:?}", op.uid, only_if_presented, live_blobs, expected, marked));
@@ -495,8 +717,13 @@ where
         (OpKind::Delete { .. }, OpResult::Err(e)) => {
             ctx.indeterminate.borrow_mut().insert(op.uid);
             if strict {
-                let props: Vec<&str> = if maintenance_seen { vec!["C04"] } else { vec!["C02", "C04"] };
-                ctx.violate(&props, "delete-failed", format!("delete returned Err({}) in a fault-free sequential run", e), format!("uid={}", op.uid));
+                let mut props: Vec<&str> = if maintenance_seen { vec!["C04"] } else { vec!["C02", "C04"] };
+                if !fail_props.is_empty() {
+                    props = fail_props.clone();
+                }
+                let why = if fault_free { "in a fault-free sequential run" } else { "although no fault fired during the call (earlier faults have cleared)" };
+                ctx.violate(&props, "delete-failed", format!("delete returned Err({}) {}", e, why), format!("uid={}", op.uid));
+                ctx.aborted.set(true);
             }
         }
         (OpKind::TryClose | OpKind::TryCreate | OpKind::TryRestore, res) => {
@@ -606,9 +833,15 @@ pub fn after_session(ctx: &Rc<RunCtx>, si: usize, outcome: SessionOutcome) {
     let world = ctx.world.clone();
     let sess = &plan.sessions[si];
     match &outcome {
+        SessionOutcome::InitFailed(_) if world.inner.borrow().last_fault_seq.is_some() && world.inner.borrow().fault_log.iter().any(|l| l.contains("tag=Some(Tag { client: 0, uid: 0 })")) => {
+            // an injected fault hit init itself: the affected call reported the error
+            world.probe("fault_hit_init");
+            ctx.aborted.set(true);
+        }
         SessionOutcome::InitFailed(msg) => {
             let prev_end = if si > 0 { Some(plan.sessions[si - 1].end.clone()) } else { None };
             let props: Vec<&str> = match prev_end {
+                _ if base_phase(&plan, si) == Some("crash") => vec!["C06"],
                 Some(SessionEnd::Killed) | Some(SessionEnd::PowerLoss(_)) => vec!["C06"],
                 Some(SessionEnd::Close) | Some(SessionEnd::Drop) => {
                     if plan.faults.is_empty() {
@@ -628,8 +861,11 @@ pub fn after_session(ctx: &Rc<RunCtx>, si: usize, outcome: SessionOutcome) {
         _ => {}
     }
     // crash handling: which client operations were in flight
+    ctx.crashed.set(false);
     if matches!(outcome, SessionOutcome::Killed) {
         world.probe("session_killed");
+        ctx.crashed.set(true);
+        crate::crash::snapshot_before_recovery(ctx, matches!(sess.end, SessionEnd::PowerLoss(_)));
         if let SessionEnd::PowerLoss(cut) = &sess.end {
             crate::faults::build_power_loss_image(ctx, cut);
         }
